@@ -257,6 +257,17 @@ def lineage_case(ctx, rng):
         same = lambda u, v: (np.array_equal(u, v) if isinstance(u, np.ndarray) or isinstance(v, np.ndarray) else u == v)
         if rt and (len(g0) != len(names) or any(not same(g0[names.index(target.get(p_, p_))], vals[p_]) for p_ in vals if target.get(p_, p_) in names)):
             ctx.broke("translator_C17_init_targets", {"class": "LineageVolumeCellState", "getstate": str(g0), "names": names, "constructed_with": str(vals)})
+        # ... and the same cell moved to time 0 of an axis on which it was born earlier (a burn-in on negative times)
+        cz = LineageVolumeCellState(v0=1.0, t0=-2.5, state=np.array([3.0, 7.0, 0.0]), volume=1.8, time=-0.5, divided=divided, dead=dead)
+        cz.py_set_time(0.0)
+        gz = cz.__getstate__()
+        for how2, c2 in (("pickle", pickle.loads(pickle.dumps(cz))), ("deepcopy", copy.deepcopy(cz))):
+            g2 = c2.__getstate__()
+            ctx.evaluated()
+            if gz[names.index("time")] != 0.0 or len(g2) != len(gz) or any(not same(u, v) for u, v in zip(gz, g2)):
+                ctx.violation("cellstate-pickle/time-zero", "a %s of a LineageVolumeCellState born at t=-2.5 and now at t=0 has the data %s, the original %s" % (how2, g2, gz),
+                              dict(recipe, how=how2, divided=divided, dead=dead))
+                return
         for how2, c2 in (("pickle", pickle.loads(pickle.dumps(c0))), ("deepcopy", copy.deepcopy(c0)), ("pickle of pickle", pickle.loads(pickle.dumps(pickle.loads(pickle.dumps(c0)))))):
             g2 = c2.__getstate__()
             ctx.evaluated()
